@@ -184,6 +184,20 @@ class CFG:
                  oracle: Callable[[ast.AST], "bool | None"] | None = None):
         self.fn = fn
         self.env = dict(env or {})
+        # a single-definition local that names an expression the environment
+        # fixes (`order = sys.byteorder`) has that value too
+        if self.env and not isinstance(fn.node, ast.Lambda):
+            try:
+                from sa.valuation import single_defs as _sd
+                from sa.model import dotted as _dt
+                for name_, val_ in _sd(fn).items():
+                    d_ = _dt(val_) if isinstance(
+                        val_, (ast.Name, ast.Attribute)) else None
+                    if d_ is not None and d_ in self.env and \
+                            name_ not in self.env and name_ not in fn.params():
+                        self.env[name_] = self.env[d_]
+            except Exception:  # pylint: disable=broad-exception-caught
+                pass
         self.oracle = oracle
         self.nodes: list[Node] = []
         self.entry = self._new("entry")
